@@ -409,11 +409,31 @@ def exWantsInput (ln : Bytes) : Bool :=
   let (cmd, _) := exCmd rest
   cmd == strOf "a" || cmd == strOf "i" || cmd == strOf "c" || cmd == strOf "append" || cmd == strOf "insert"
     || cmd == strOf "change" || cmd == strOf "rs" || cmd == strOf "g" || cmd == strOf "v" || cmd == strOf "@"
-    || cmd == strOf "!" || cmd == strOf "make" || cmd == strOf "ft" || cmd == strOf "ta" || cmd == strOf "pop"
+    || cmd == strOf "!" || cmd == strOf "kmap" || cmd == strOf "km" || cmd == strOf "make" || cmd == strOf "ft" || cmd == strOf "ta" || cmd == strOf "pop"
+
+/-- the option a `:set` line assigns: (variable of ex.c, value); options the `Ed` record does not carry
+matter only to the vi layer -/
+def setOf (ln : Bytes) : Option (String × Int) :=
+  let (_, rest) := exLoc (ln.dropWhile (fun c => c == 58 || isSpaceC c))
+  let (cmd, rest) := exCmd rest
+  if !(cmd == strOf "se" || cmd == strOf "set") then none else
+  let tok := (rest.dropWhile isSpaceC).takeWhile (fun c => !isSpaceC c && c != 124)
+  if tok.isEmpty then none else
+  let (opt, val) : Bytes × Int :=
+    if tok.headD 0 == 110 && tok.getD 1 0 == 111 then (tok.drop 2, 0)
+    else if tok.contains 61 then (tok.takeWhile (· != 61), atoi ((tok.dropWhile (· != 61)).drop 1))
+    else (tok, 1)
+  (optVar opt).map (fun v => (v, val))
 
 /-- `ex_command(ln)` from the vi loop; returns its status -/
 def exCommandV (ln : Bytes) : M Int := fun s =>
   if exWantsInput ln then Res.ok 1 { s with unmodelled := true } else
+  let s := match setOf ln with
+    | some (v, val) =>
+      if v == "xai" then { s with xai := val != 0 }
+      else if v == "xaw" || v == "xwa" || v == "xic" || v == "xtd" then s
+      else { s with unmodelled := true }       -- hist, lim, order, shape, hl, hll, ru, led, ...: not modelled
+    | none => s
   let ed0 := { s.ed with out := [], msg := [], input := [], xvis := true }
   match exCommand 64 ed0 ln with
   | none => Res.trap
@@ -481,6 +501,7 @@ def viStep : M Unit := do
       if c ≤ 0 then pure none else
       let s ← get
       markSet 94 s.ed.xrow s.ed.xoff
+      let s ← get
       let a1 := s.arg1
       let fin (mod : Nat) (k : Int := 0) : M (Option Nat) := do
         let cmd ← termCmd
@@ -550,7 +571,7 @@ def viStep : M Unit := do
         lbufModified
         fin 0
       else if c == 58 then do   -- :
-        match ← viPrompt with
+        match ← viPrompt true with
         | some ln =>
           if ln.isEmpty then fin 0 else
           let ln := if ln.headD 0 != 58 then 58 :: ln else ln
